@@ -187,12 +187,11 @@ def run(tier):
                     stops = [e for e in evs if e[0] == "stops"]
                     stops = stops[0][1] if stops else []
                     sc = Counter(sp[1][0] if isinstance(sp[1], list) else None for sp in stops)
-                    resolved = [e for e in evs if e[0] == "resolved"]
-                    verified = set(l for l, v in (resolved[0][1] if resolved else []) if v)
                     st["every_line_runs"] = st.get("every_line_runs", 0) + 1
-                    for L in sorted(set(hc) | set(sc)):
-                        if L not in verified:
-                            continue
+                    src_lines = src.split("\n")
+                    for L in sorted((set(hc) | set(sc)) - {None}):
+                        if not (isinstance(L, int) and 0 < L <= len(src_lines)) or "lambda" in src_lines[L - 1]:
+                            continue  # a lambda body is a statement of its own on the same line: per-line counts are not comparable
                         st["every_line_lines"] = st.get("every_line_lines", 0) + 1
                         if hc.get(L, 0) != sc.get(L, 0):
                             text = src.split("\n")[L - 1].strip() if isinstance(L, int) and 0 < L <= len(src.split("\n")) else "?"
